@@ -47,6 +47,11 @@ Lemma gen_panic_sites_reviewed :
   forallb (fun s => existsb (fun r => site_eqb s (fst r)) reviewed_panic_sites) SwitchGen.panic_sites = true.
 Proof. vm_compute. reflexivity. Qed.
 
+(* every unchecked type assertion the translator finds in the decoder's files has been reviewed *)
+Lemma gen_type_assertions_reviewed :
+  forallb (fun s => existsb (fun r => site_eqb s (fst r)) reviewed_type_assertions) SwitchGen.unchecked_type_assertions = true.
+Proof. vm_compute. reflexivity. Qed.
+
 (* the outer switch of scalarReflectFromGo has an arm for every kind the model converts, and no arm
    the model does not know (\"Any\": a scalar schema of type any is never built by the reflector) *)
 Lemma gen_scalar_kinds_agree :
@@ -461,6 +466,69 @@ Theorem decode_bytes_total orc e root bs :
   is_panic (decode_bytes orc e root bs) = false /\ decode_bytes orc e root bs <> OutOfFuel.
 Proof.
   unfold decode_bytes. destruct (lex bs) as [ts me]. apply decode_tokens_total.
+Qed.
+
+(* ---------------------------------------------------------------- the whole call: descent + end of input *)
+Lemma decode_tokens_fst orc e me fuel root ts :
+  decode_tokens orc e me fuel root ts = omap fst (decode_tokens_rest orc e me fuel root ts).
+Proof.
+  unfold decode_tokens, decode_tokens_rest, omap.
+  destruct (lookup e root) as [[props|props|]|]; try reflexivity.
+  - destruct (expect TOpenObj ts) as [r| | |]; try reflexivity. cbn [obind].
+    destruct (object_body orc e me fuel 0 props r [] []) as [sr| | |]; try reflexivity. cbn [obind].
+    destruct (expect TCloseObj (snd sr)); reflexivity.
+  - destruct (expect TOpenObj ts) as [r| | |]; try reflexivity. cbn [obind].
+    destruct (oneof_body orc e me fuel 0 props r [] [] [] None) as [sr| | |]; try reflexivity. cbn [obind].
+    destruct (expect TCloseObj (snd sr)); reflexivity.
+Qed.
+
+(* JSONToProto = the descent, then the end-of-input check: an accepted document is one whose descent
+   succeeds, nothing follows its root value and the tokenizer stopped at io.EOF *)
+Definition doc_end_ok (orc : oracles) (e : env) (root bs : bytes) : bool :=
+  let '(ts, me) := lex bs in
+  match decode_tokens_rest orc e me (S (length ts)) root ts with
+  | Ok (_, []) => lex_at_eof bs
+  | _ => false
+  end.
+
+Lemma decode_document_ok orc e root bs m :
+  decode_document orc e root bs = Ok m <->
+  decode_bytes orc e root bs = Ok m /\ doc_end_ok orc e root bs = true.
+Proof.
+  unfold decode_document, decode_bytes, doc_end_ok. destruct (lex bs) as [ts me].
+  rewrite decode_tokens_fst. unfold omap.
+  destruct (decode_tokens_rest orc e me (S (length ts)) root ts) as [[m0 r]| | |]; cbn [obind fst snd];
+    try (split; [discriminate | intros [H _]; discriminate]).
+  unfold end_of_input. destruct r as [|t r]; [destruct (lex_at_eof bs)|]; cbn [obind];
+    split; try discriminate; try (intros [_ H]; discriminate); intros H; try (destruct H as [H _]); auto.
+Qed.
+
+(* a rejected descent is a rejected document; trailing data turns an accepted descent into an error *)
+Lemma decode_document_err orc e root bs c :
+  decode_bytes orc e root bs = Err c -> exists c', decode_document orc e root bs = Err c'.
+Proof.
+  unfold decode_document, decode_bytes. destruct (lex bs) as [ts me].
+  rewrite decode_tokens_fst. unfold omap.
+  destruct (decode_tokens_rest orc e me (S (length ts)) root ts) as [[m0 r]| | |]; cbn [obind fst snd];
+    try discriminate. intros H. eauto.
+Qed.
+
+Theorem trailing_data_rejected orc e root bs :
+  doc_end_ok orc e root bs = false -> is_ok (decode_document orc e root bs) = false.
+Proof.
+  intros H. destruct (decode_document orc e root bs) as [m| | |] eqn:E; try reflexivity.
+  apply decode_document_ok in E. destruct E as [_ E]. congruence.
+Qed.
+
+Theorem decode_document_total orc e root bs :
+  is_panic (decode_document orc e root bs) = false /\ decode_document orc e root bs <> OutOfFuel.
+Proof.
+  destruct (decode_bytes_total orc e root bs) as [Hp Hf].
+  unfold decode_document, decode_bytes in *. destruct (lex bs) as [ts me].
+  rewrite decode_tokens_fst in Hp, Hf. unfold omap in *.
+  destruct (decode_tokens_rest orc e me (S (length ts)) root ts) as [[m0 r]| | |]; cbn [obind fst snd] in *;
+    try (split; [assumption | assumption]).
+  unfold end_of_input. destruct r; [destruct (lex_at_eof bs)|]; cbn [obind]; split; try reflexivity; discriminate.
 Qed.
 
 Theorem append_go_value_no_panic orc k t l : is_panic (append_go_value orc k t l) = false.
